@@ -69,6 +69,10 @@ CHECKS = {
  'C11': dict(level='exploration', ref='3/C11', technique='exhaustive ASan/UBSan harness around unicode.c (codec round trip vs reference encoder, identifier classes vs Annex D typed from the standard) + differential execution monitor for literal values/types/bytes vs Python C11 ladder / Python codecs == gcc == clang, repeated under BOM/CRLF/CR/splice transformations',
              text='The integer-literal typing ladder is walked as a grid (5 base spellings x 23 suffix spellings x 45 magnitudes at every threshold +-1); character constants and strings cover simple/octal/hex/universal escapes, all prefixes and every defined concatenation pair. All 1 112 064 Unicode scalar values go through encode_utf8/decode_utf8/is_ident1/is_ident2 (exhaustive sub-space, ~1 s); through the real compiler, code points at every plane, surrogate and encoding-length boundary plus random ones (thorough: all) are checked in U"", u"", u8"", "" and L"" arrays and character constants.',
              note='gcc == clang + Python codecs trusted; implementation-defined constants (multi-character, non-ASCII plain char) not generated'),
+
+ 'C16': dict(level='exploration', ref='3/C16', technique='pinned-thread stress of chibicc-emitted atomic sequences with per-thread result logs and an offline history checker (conservation, exact multiset of results, exactly-once token hand-over, CAS success chain / failure write-back); valgrind helgrind on the same binary as binary-level race detector',
+             text='Threads are pinned to distinct CPUs behind a pthread barrier (threads of a fresh process otherwise run serially in this VM) and hammer one shared object per phase: 11 operation families x 6 width/signedness variants x 3 storage classes. Unique results make the histories unambiguous, so the checker decides indivisibility from the logs alone; hand-offs between threads and failed compare-exchanges are counted as evidence of real interleaving (tens of millions per quick run) and a run with too few is inconclusive. Helgrind re-runs a small instance and must report no race on the atomic objects.',
+             note='schedules are those the 16 pinned cores produce (no enumeration of interleavings, x86-TSO only); gcc-compiled harness/checker and libpthread trusted; a non-terminating retry loop is reported after one re-run'),
 }
 REASON_WIP = 'check not built yet in this session (planned, see DESIGN.md section 3); will be claimed once its monitor is silent on the unchanged tree'
 
